@@ -121,6 +121,19 @@ CLAIMED["C12"] = dict(
     technique="bounded-exhaustive input enumeration with deterministic step counting (instrumented work counter) as the complexity oracle",
     design_ref="§4 C12")
 
+CLAIMED["C05"] = dict(
+    category="fault_enumeration", engine="sqlfault",
+    text="55 write requests (REST create, REST PATCH / gRPC Transact with |I| in {0,1,2,3000,3001} x |D| in {0,1,100,101,201}, delete-by-query, Manager-level TransactRelationTuples; thorough adds |I| = 6001 and 7501, crossing the 15000-mapping chunk). For each, with N = the SQL statements of the fault-free request seen by the driver tap: (a) EVERY k in 1..N x {fail before executing, fail after executing, drop the connection}; (b) an invalid tuple / unknown namespace at every position (chunk boundaries +-1 for large batches); (c) REAL crash points: a worker subprocess on a file-backed database is SIGKILLed inside the driver before and after every statement k and the file is reopened by a fresh registry; (d) a reader on a second registry (same database, WAL and shared-cache variants) reads while the writer is paused at EVERY statement boundary, and every pair of boundaries for a two-read reader. Oracle: relationships after in {before, apply(I,D,before)}, = before when an error was reported; reader observations are the before- or the after-state and never go backwards.",
+    note="SQLite only (the only engine in the sandbox): what keto contributes - one transaction around the whole request, reused by nested calls - is what is falsifiable here; an error injected after COMMIT executed is a lost acknowledgement (either state accepted).",
+    technique="exhaustive fault-position, crash-point (real SIGKILL) and reader-schedule enumeration at SQL-statement granularity on the implementation",
+    design_ref="§4 C05")
+CLAIMED["C09"] = dict(
+    category="exploration", engine="enum",
+    text="Every root-connected tuple multiset of <=4 tuples (thorough 5: 48534 multisets) over 4 objects, 2 relations, 2 users up to renaming - chains, diamonds, cycles, self-loops, duplicates - in ALL sibling row orders (shard_id forced), plus fan-out families with 99/100/101/201 children, x 11 request/global depth combinations, through the expand engine, REST and gRPC. Oracles against an independent reachability model (h/refsem ExpandGraph): every edge is a stored tuple, a subject set is an inner node at most once, height <= effective depth, statement count within a stated bound (termination on cycles, step-count horizon), leaves subset of reach, leaves superset of everything within depth (weaker reading), and with depth not binding the subject-id leaves equal the subjects the check API allows.",
+    note="Rewrite-free namespaces; SQLite only; the row-order dependent incompleteness (recorded findings KF-C09-1/2) is matched by a structural signature computed from the counterexample.",
+    technique="bounded-exhaustive enumeration of graphs x row orders x depths against a reference reachability model",
+    design_ref="§4 C09")
+
 NOT_YET = "check not built yet in this revision (work in progress; see DESIGN.md §4 for the planned model-checking design)"
 
 
